@@ -379,6 +379,19 @@ def search_gamma(ctx, filters, np, bad):
         # one window object per (order, peak) serves every width asked of it (as a window shared by several computers
         # does): its answer for a width must not depend on the widths it was asked before
         key = (order, peak)
+        if rep % 4 == 3:
+            # the documented public attributes may be re-assigned on an existing window: it must then behave like a
+            # window constructed with the new values
+            o0 = r.choice([1, 2, 3, 4, 6, 9])
+            p0 = r.choice([0.75, 0.5, 0.3])
+            wre = filters.GammaWindow(order=o0, peak=p0)
+            if r.random() < 0.5:
+                wre.get_impulse_response(r.randint(2, 40))
+            wre.order, wre.peak = order, peak
+            key = (order, peak, "retuned", rep)
+            pool[key] = (wre, [])
+            inp["constructed_with"] = dict(order=o0, peak=p0)
+            ctx.count("search:gamma:retuned-object")
         if key not in pool:
             pool[key] = (filters.GammaWindow(order=order, peak=peak), [])
         wobj, asked = pool[key]
